@@ -29,6 +29,7 @@ type c20Case struct {
 	Recs []int  `json:"recs,omitempty"`
 	Prog []wop  `json:"prog,omitempty"` // writer program with seeks (record indexes into the C20 alphabet)
 	Comp int    `json:"comp"`
+	WBuf int    `json:"wbuf,omitempty"` // write buffer (0 = 4096)
 }
 
 func c20Alphabet() []rioRec {
@@ -38,6 +39,7 @@ func c20Alphabet() []rioRec {
 		{"a", []byte("a")},
 		{"c300", bytes.Repeat([]byte("abcabcabd"), 34)[:300]},
 		{"mk", append([]byte{0x91, 0x8d, 0x4c, 0x00}, 0x91)},
+		{"z40", make([]byte, 40)},
 	}
 }
 
@@ -52,6 +54,8 @@ func (c c20) Run(ctx *core.Ctx) error {
 	rec = func(cur []int) {
 		for comp := 0; comp < 4; comp++ {
 			cases = append(cases, core.J(c20Case{Kind: "file", Recs: append([]int{}, cur...), Comp: comp}))
+			// a write buffer smaller than most records: those records bypass the buffer
+			cases = append(cases, core.J(c20Case{Kind: "file", Recs: append([]int{}, cur...), Comp: comp, WBuf: 16}))
 		}
 		if len(cur) == maxLen {
 			return
@@ -77,8 +81,28 @@ func (c c20) Run(ctx *core.Ctx) error {
 			}
 		}
 	}
+	// longer seek programs over three record sizes (1, 5 and 40 zero bytes): repeated rewinds of different lengths
+	seekMax := 5
+	if ctx.Tier == "thorough" {
+		seekMax = 6
+	}
+	for l := 4; l <= seekMax; l++ {
+		for _, p := range rioPrograms(l, []int{2, 4, 5}, nil, 0, -1) {
+			hasSeek := false
+			for _, o := range p {
+				hasSeek = hasSeek || o.Op == "K"
+			}
+			if !hasSeek {
+				continue
+			}
+			for _, cw := range [][2]int{{0, 4096}, {0, 16}, {2, 4096}, {2, 16}} {
+				cases = append(cases, core.J(c20Case{Kind: "file", Prog: p, Comp: cw[0], WBuf: cw[1]}))
+			}
+		}
+	}
+	ctx.Ev.Bounds["seek_programs_max_length"] = seekMax
 	cases = append(cases, core.J(c20Case{Kind: "enum"}))
-	ctx.Ev.Rule = "every record sequence up to the length bound over {nil, empty, a, 300 compressible bytes, marker-bearing} x 4 compression types is written by the current writer and parsed with gokaitai.RecordioV4; record count, nil flags and stored payload bytes are compared with the byte layout the native reader uses; plus the compression enum of the schema and of the generated code against the writer constants. non-trivial = at least one record"
+	ctx.Ev.Rule = "every record sequence up to the length bound over {nil, empty, a, 300 compressible bytes, marker-bearing, 40 zero bytes} x 4 compression types x write buffer {16, 4096} is written by the current writer and parsed with gokaitai.RecordioV4; record count, nil flags and stored payload bytes are compared with the byte layout the native reader uses; plus every writer program with Seek(to a surviving boundary) up to seek_programs_max_length; plus the compression enum of the schema and of the generated code against the writer constants. non-trivial = at least one record"
 	ctx.Ev.Bounds["max_records"] = maxLen
 	rs := ctx.Pmap(cases)
 	ctx.Fold(rs, cases)
@@ -123,7 +147,11 @@ func (c c20) Case(w *core.WCtx, payload json.RawMessage) core.Result {
 	}
 	dir := w.Dir()
 	path := tmpFile(dir, "k.rio")
-	m, _, err := rioWrite(path, prog, rioCfg{Comp: cs.Comp, WBuf: 4096}, alpha)
+	wbuf := cs.WBuf
+	if wbuf == 0 {
+		wbuf = 4096
+	}
+	m, _, err := rioWrite(path, prog, rioCfg{Comp: cs.Comp, WBuf: wbuf}, alpha)
 	if err != nil {
 		r.Viol = append(r.Viol, core.Violation{Desc: "writer failed: " + err.Error()})
 		return r
@@ -131,12 +159,12 @@ func (c c20) Case(w *core.WCtx, payload json.RawMessage) core.Result {
 	r.Trans += int64(len(prog))
 	r.Traces++
 	if len(prog) > 0 {
-		r.Key = core.HashKey(names, fmt.Sprint(cs.Comp))
+		r.Key = core.HashKey(names, fmt.Sprint(cs.Comp, wbuf))
 	}
 	data := readAll(path)
 	viol := func(sig, f string, a ...any) {
 		if len(r.Viol) < 4 {
-			r.Viol = append(r.Viol, core.Violation{Sig: sig, Desc: fmt.Sprintf("[%s] comp=%s: %s", names, writerCompressionNames[cs.Comp], fmt.Sprintf(f, a...))})
+			r.Viol = append(r.Viol, core.Violation{Sig: sig, Desc: fmt.Sprintf("[%s] comp=%s wbuf=%d: %s", names, writerCompressionNames[cs.Comp], wbuf, fmt.Sprintf(f, a...))})
 		}
 	}
 	func() {
